@@ -163,6 +163,42 @@ func runC20(c *Ctx) {
 		})
 		c.Count(fmt.Sprintf("fault_free_n%d_values%d", d.n, len(d.vals)), total)
 	}
+	// larger dimensions (multi-digit row counts and column alignment): a few structured weight functions
+	for _, n := range []int{9, 10, 11, 12, 37, 100, 101} {
+		L := n * (n - 1) / 2
+		for variant := 0; variant < 4; variant++ {
+			w := make([]int, L)
+			for i := range w {
+				switch variant {
+				case 0:
+					w[i] = i
+				case 1:
+					w[i] = -(i * 7919) % 100003
+				case 2:
+					w[i] = tspValues[i%len(tspValues)]
+				case 3:
+					w[i] = 0
+				}
+			}
+			tc := tspCase{N: n, Weights: w}
+			c.Check(func() *Failure { return evalTSP(tc) })
+			c.Nontrivial(1)
+			if n <= 12 {
+				// and every fault position for this run
+				var calls [][2]int
+				rec := &faultWriter{}
+				if tsp.LIB(rec, n, tspWeightsFn(tc, &calls)) == nil {
+					for p := 0; p < rec.writes; p++ {
+						for _, kind := range []string{"perm-zero", "transient-zero", "transient-short"} {
+							ft := tspCase{N: n, Weights: w, FaultAt: p, Kind: kind}
+							c.Check(func() *Failure { return evalTSP(ft) })
+							c.Nontrivial(1)
+						}
+					}
+				}
+			}
+		}
+	}
 	// fault enumeration
 	fvals := []int{math.MinInt64, 0, 31}
 	maxN := 4
